@@ -226,6 +226,52 @@ theorem nocache_rerun_witness :
   · intro hf
     simp [loadDepList, d, s, st0, c, mkT, loadOutputs, hf]
 
+/-- **check_reads_dependency_witness** (regression; output checks run before the dependency outputs are there).
+    `t` depends on `d` and has the output check "`d`'s output file exists"; both are cache hits. Under `all` (`sa`: `d` was
+    restored into the workspace) the check passes and nothing runs. Under `minimal` (`sm`: `d` is a hit that was not
+    materialised) the unrepaired code runs the check on a workspace without `d`'s output, so the check fails and `t` is
+    executed; the repaired code loads the outputs of `t`'s dependencies before the check, and nothing runs. -/
+theorem check_reads_dependency_witness :
+    ∃ (defs : Defs) (t : Target) (sa sm : BState Nat) (ks : KeyState Nat), sa.cache = sm.cache ∧ sa.log = [] ∧ sm.log = [] ∧
+      ∀ (P : Params Nat), P.K ks = 7 → P.fx.gateChecks = true →
+        (buildTarget P ⟨true, false⟩ defs 5 t sa).log = [] ∧
+        (P.fx.checkDeps = false → (buildTarget P ⟨true, true⟩ defs 5 t sm).log = [t.label]) ∧
+        (P.fx.checkDeps = true → (buildTarget P ⟨true, true⟩ defs 5 t sm).log = []) := by
+  let od : OutDef := ⟨false, [111]⟩
+  let d : Target := mkT [100] [od] [] false
+  let t : Target := mkT [116] [] [([111], none)] false [[100]]
+  let ohd : OH Nat := .outs [(od, [1])]
+  let c : Cache Nat := { res := fun k => if k = 3 then some ⟨ohd, [(od, [1])]⟩ else if k = 7 then some ⟨.self 7, []⟩ else none,
+                         cas := fun _ => true, taint := fun _ => false }
+  let defs : Defs := fun l => if l = [100] then some d else if l = [116] then some t else none
+  let sa : BState Nat := { fs := fun p => if p = [111] then some [1] else none, cache := c,
+                           st := fun l => if l = [100] then some ⟨true, some 3, some ohd, true⟩ else none, log := [] }
+  let sm : BState Nat := { fs := fun _ => none, cache := c,
+                           st := fun l => if l = [100] then some ⟨true, some 3, some ohd, false⟩ else none, log := [] }
+  refine ⟨defs, t, sa, sm, keyState t (fun _ => none) [ohd], rfl, rfl, rfl, ?_⟩
+  intro P hK hg
+  have hK' : P.K ⟨[116], ⟨[], 0, [], [], false⟩, [], [], [([100], ohd)], [], []⟩ = 7 := hK
+  refine ⟨?_, ?_, ?_⟩
+  · simp [buildTarget, buildTargetNoPre, hg, t, sa, c, mkT, depsOk, depOhs, ohOf, keyState, hK', tryHit, checksPass, restore, validate,
+      writeOuts, upd]
+  · intro hf
+    have hb : buildTarget P ⟨true, true⟩ defs 5 t sm =
+        (let r := execTarget P ⟨true, true⟩ defs t 7 false
+          { sm with fs := upd (fun _ => none) [111] (some [1]),
+                    st := upd sm.st [100] (some ⟨true, some 3, some ohd, true⟩) }
+         if r.2 then r.1 else failT r.1 t.label) := by
+      simp [buildTarget, buildTargetNoPre, hf, hg, t, d, od, ohd, sm, c, defs, mkT, depsOk, depOhs, ohOf, keyState, hK', tryHit, checksPass,
+        loadDepList, loadOutputs, restore, validate, writeOuts, upd]
+    rw [hb]
+    simp only
+    split
+    · rw [execTarget_log]
+    · show (execTarget _ _ _ _ _ _ _).1.log = _
+      rw [execTarget_log]
+  · intro hf
+    simp [buildTarget, buildTargetNoPre, hf, hg, t, d, od, ohd, sm, c, defs, mkT, depsOk, depOhs, ohOf, keyState, hK', tryHit, checksPass,
+      loadDepList, loadOutputs, restore, validate, writeOuts, upd]
+
 /-- **load_fault_witness** (regression; fault while dependency outputs are loaded): `t` needs `d1` and `d2`; the
     stored result of `d1` cannot be read. The unrepaired loop re-runs `d1` and returns: `d2` is still not materialised
     when `t`'s command starts. The repaired loop carries on and loads `d2`. -/
